@@ -3,6 +3,8 @@
 package hx
 
 import (
+	"sync/atomic"
+
 	"github.com/hyperjumptech/grule-rule-engine/verifhook"
 )
 
@@ -22,3 +24,6 @@ func HookCalls() uint64 { return verifhook.Calls }
 
 // SetPointFn installs the yield-point callback (C09 build).
 func SetPointFn(f func(label string)) { verifhook.PointFn = f }
+
+// KeyHookCalls returns the number of Keys invocations (clone-order hook) so far.
+func KeyHookCalls() uint64 { return atomic.LoadUint64(&verifhook.KeyCalls) }
